@@ -128,7 +128,23 @@ def check(ctx, case):
 			qarrs = [np.array(q, dtype=d) for q, d in zip(qs, case['qdts'])]
 			rarrs = [np.array(r, dtype=dt) for r in rs]
 			table = [[bits(metric.jaccarddist(q, r)) for r in rarrs] for q in qarrs]
-			refs, closer = container(case['rcont'], rs, dt)
+			if case.get('rdts'):
+				# a plain list / SignatureList whose members are held in different integer widths (all values fit the narrowest)
+				rarrs = [np.array(r, dtype=d) for r, d in zip(rs, case['rdts'])]
+				table = [[bits(metric.jaccarddist(q, r)) for r in rarrs] for q in qarrs]
+				if case['rcont'] == 'siglist':
+					from gambit.kmers import KmerSpec
+					from gambit.sigs.base import SignatureList
+					refs = SignatureList(rarrs, KmerSpec(11, 'ATGAC'))
+				else:
+					refs = rarrs
+				if case.get('pairwise'):
+					tb = [[bits(metric.jaccarddist(a, b)) for b in rarrs] for a in rarrs]
+					res = metric.jaccarddist_pairwise(refs)
+					case['_nt'] = len(rs) >= 3
+					return [f'c05.pairwise {natlists(tb)} {nats(range(len(rs)))} 0 {natlists(res.view(np.uint32).tolist())}'], pyfails
+			else:
+				refs, closer = container(case['rcont'], rs, dt)
 			res = metric.jaccarddist_matrix(qarrs, refs, chunksize=case.get('chunk'))
 			out0 = [[0] * len(rs) for _ in qs]
 			case['_nt'] = len(rs) >= 2
@@ -140,8 +156,12 @@ def check(ctx, case):
 			refs, closer = container(case['rcont'], rs, dt)
 			ridx = case.get('ref_idx')
 			ridx_arg = ridx
+			neg = case.get('ridx_neg')
+			if ridx is not None and neg:
+				# some positions written as negative indices (-1 = last reference): same selection
+				ridx_arg = [(i - len(rs)) if f else i for i, f in zip(ridx, neg)]
 			if ridx is not None and case.get('ridx_form') == 'array':
-				ridx_arg = np.array(ridx, dtype=np.intp)
+				ridx_arg = np.array(ridx_arg, dtype=np.intp)
 			nrefs = len(rs) if ridx is None else len(ridx)
 			outk = case.get('out')
 			out = parent = None
@@ -168,7 +188,17 @@ def check(ctx, case):
 			line = (f'c05.matrix {len(qs)} {len(rs)} {natlists(table)} {"~" if ridx is None else nats(ridx)} {opt(case.get("chunk"))} '
 			        f'{natlists(out0)} {real}')
 			case['_nt'] = len(rs) >= 2 and len({x for row in table for x in row}) > 1
-			return [line], pyfails
+			lines = [line]
+			if ridx is not None and neg and case.get('reuse_ridx') and case['rcont'] in ('array', 'siglist', 'plain', 'subarray'):
+				# the very same index object selects from a LONGER collection next: negative entries count from its end
+				rs2 = rs + [[7, 9, 11]]
+				refs2, _ = container(case['rcont'], rs2, dt)
+				ridx2 = [(i + 1) if f else i for i, f in zip(ridx, neg)]
+				table2 = table_of(qs, rs2, case.get('dtq', dt), dt)
+				res2 = metric.jaccarddist_matrix(queries, refs2, ref_indices=ridx_arg, chunksize=case.get('chunk'))
+				real2 = natlists(res2.view(np.uint32).tolist()) if len(qs) and nrefs else natlists([[] for _ in qs])
+				lines.append(f'c05.matrix {len(qs)} {len(rs2)} {natlists(table2)} {nats(ridx2)} {opt(case.get("chunk"))} {natlists([[0] * nrefs for _ in qs])} {real2}')
+			return lines, pyfails
 		if kind == 'array':
 			q, rs = case['q'], case['refs']
 			table = table_of([q], rs, case.get('dtq', dt), dt)[0]
@@ -279,6 +309,7 @@ def run(ctx):
 				sub({'kind': 'matrix', 'qs': qs, 'refs': rs, 'rcont': fix_rc(nr, rc), 'qcont': rng.choice(['plain', 'array', 'siglist']), 'dt': dt,
 				     'dtq': rng.choice([dt, 'u8', 'u2' if dt in ('u2', 'i2') else 'u4']) if max([0] + [x for s in qs for x in s]) < 2 ** 15 else dt,
 				     'ref_idx': ridx, 'ridx_form': rng.choice(['list', 'array']), 'chunk': chunk,
+				     'ridx_neg': ([rng.random() < 0.4 for _ in ridx] if (ridx and rng.random() < 0.4) else None), 'reuse_ridx': rng.random() < 0.6,
 				     'out': rng.choice([None, None, 'contig', 'strided']), 'threads': threads}, 'matrix')
 			elif r < 0.75:
 				rs = rand_sigs(rng, rng.choice([0, 1, 2, 5, 9, rng.randint(0, 40)]))
@@ -315,6 +346,14 @@ def run(ctx):
 					qs.append(sorted(rng.sample(range(40), rng.randint(0, 6)))); qdts.append(rng.choice([dt, wide]))
 			sub({'kind': 'matrix', 'qs': qs, 'qdts': qdts, 'refs': rs, 'rcont': rng.choice(['array', 'siglist', 'plain', 'array']), 'dt': dt,
 			     'chunk': rng.choice([None, 1, 2, 1000]), 'threads': rng.randint(1, tmax)}, 'mixed-type-queries')
+			if j % 3 == 0:
+				# references of mixed widths (narrowest first), small values
+				rs2 = [sorted(rng.sample(range(40), rng.randint(0, 6))) for _ in range(rng.randint(2, 6))]
+				rdts = ['u2' if dt == 'u2' else 'u4'] + [rng.choice(['u2', 'u4', 'u8', 'i8', 'i4']) for _ in rs2[1:]]
+				small_qs = [sorted(rng.sample(range(40), rng.randint(0, 6))) for _ in range(rng.randint(1, 3))]
+				sub({'kind': 'matrix', 'qs': small_qs, 'qdts': [rng.choice(['u2', 'u4', 'u8']) for _ in small_qs], 'refs': rs2, 'rdts': rdts,
+				     'rcont': rng.choice(['plain', 'siglist']), 'dt': rdts[0], 'pairwise': rng.random() < 0.35,
+				     'chunk': rng.choice([None, 1, 2, 1000]), 'threads': rng.randint(1, tmax)}, 'mixed-width-references')
 		# the same list object, edited in place between two calls
 		for j in range(ctx.q(150, 1500)):
 			if not ctx.time_left(0.93):
